@@ -5,7 +5,9 @@ from checks.common import CheckResult, VERIF, replay_header, repo_src, standard_
 
 FILES = [os.path.join(VERIF, "contracts", "tracked.py"), os.path.join(VERIF, "contracts", "node_port.py")]
 T = "hugr.build.tracked_dfg.TrackedDfg."
-TARGETS = [T + "track_wire", T + "tracked_wire", T + "untrack_wire", T + "add", T + "set_indexed_outputs"]
+TARGETS = [T + "track_wire", T + "tracked_wire", T + "untrack_wire", T + "add", T + "set_indexed_outputs",
+           # the port an index is rebound to is built by Node.out (contract shared with C16)
+           "hugr.hugr.node_port.Node.out", "hugr.hugr.node_port.Node.inp", "hugr.hugr.node_port.Node.out_port", "hugr.hugr.node_port.OutPort.out_port"]
 
 
 def ground():
